@@ -2041,6 +2041,11 @@ where
 
         loop {
             if let Some(mut c) = self.next().and_then(char::from_u32) {
+                // Only an unescaped '>' ends the name.
+                if c == '>' {
+                    break;
+                }
+
                 if c == '\\' && self.try_consume('u') {
                     if let Some(escaped) =
                         self.try_escape_unicode_sequence().and_then(char::from_u32)
@@ -2050,10 +2055,6 @@ where
                         self.input = orig_input;
                         return None;
                     }
-                }
-
-                if c == '>' {
-                    break;
                 }
 
                 if interval_contains(id_continue_ranges(), c.into()) || c == '$' || c == '_' || c == '\u{200C}' /* <ZWNJ> */ || c == '\u{200D}'
